@@ -64,7 +64,7 @@ Fixpoint serialise (e : endpoints) (segs : list out_seg) : result (list (Z * byt
 
 Definition session_traffic (keylog : list secret) (s : tsession) : result (list traffic_entry) :=
   do st <- get_tls_records C suite_table suite_parts keylog (ts_server_ip s) (ts_server_port s)
-                          {| rs_server_pbuf := []; rs_client_pbuf := []; rs_core := ts_core s; rs_traffic := [] |} (ts_packet_buffer s);
+                          {| rs_server_pbuf := []; rs_client_pbuf := []; rs_server_next := None; rs_client_next := None; rs_core := ts_core s; rs_traffic := [] |} (ts_packet_buffer s);
   (* application_traffic: the entries tagged te_meta exist only when -a was given *)
   Ok (if opt_metadata o then rs_traffic st else filter (fun e => negb (te_meta e)) (rs_traffic st)).
 
